@@ -108,7 +108,7 @@ def run(R):
         R.eq(tonic.const('codec::DEFAULT_MAX_SEND_MESSAGE_SIZE').get('v'), W['default_max_send'], 'C06.R2', 'default-send-const', 'tonic/src/codec/mod.rs', 'DEFAULT_MAX_SEND_MESSAGE_SIZE')
         slice_n = param_of_type(b, r'^&mut \[u8\]$')
         lim_loc = loc_of_type(tonic, b, LIMIT_TY)
-        is_paylen = lambda x: bool(find_terms(x, lambda y: y and y[0] == 'bin' and y[1] == 'SubWithOverflow' and const_val(y[3]) == W['header_size'] and find_terms(y[2], lambda z: is_call(z, name='len') and arg_root(z[2][0]) == slice_n)))
+        is_paylen = lambda x: is_payload_len(x, slice_n, W['header_size'])
         writes = prefix_layout(b)
         R.floor('C06.R2', 'prefix writes', len(writes), 2)
         # (a) the configured limit: payload_len <= limit accepted, else OUT_OF_RANGE
@@ -251,7 +251,10 @@ def run(R):
             R.check(is_limit_param(cb, a), 'C06.R4', 'EncodeBody::%s->EncodedBytes' % ctor, site(cb, bb), 'limit = %s' % show(a))
         eb = tonic.body('codec::encode::EncodedBytes::<T, U>::new')
         for bb, i, p, a, ops in mirlib.aggregates(eb, 'encode::EncodedBytes'):
-            v = eb.origin(ops[a['fields'].index('max_message_size')])
+            fo = agg_field_operand(eb, a, ops, 'max_message_size')
+            if fo is None:
+                raise CheckError('UNRECOGNISED: EncodedBytes::new stores no max_message_size field (directly or in a sub-struct)')
+            v = eb.origin(fo[0])
             R.check(is_limit_param(eb, v), 'C06.R4', 'EncodedBytes.max_message_size', site(eb, bb, i), 'field = %s' % show(v))
         pn = tonic.body(re.compile(r'codec::encode::EncodedBytes<T, U> as .*Stream>::poll_next$'))
         bb, t = pn.call1(name='encode_item')
